@@ -43,6 +43,10 @@ def write_table(path, rng, unity=False, expr=False, nd=3, ns=4):
         cells = [repr(round(v, 4)) for v in vals]
         if expr and i == 0 and not unity:
             cells[1] = '1.0 + 0.002 * np.sqrt(dT)'
+        if expr == 'repeat' and i == 1 and not unity:
+            # the same text in several columns: each column's factor is
+            # evaluated with its own temperature rise
+            cells[0] = cells[1] = cells[2] = '1.0 + 0.5 / (dT + 1.0)'
         rows.append(f'direct{i},Direct,' + ','.join(cells))
     for i in range(ns):
         vals = [1.0 if unity else rng.choice([1.0, rng.uniform(1.0, 1.5)])
@@ -50,9 +54,48 @@ def write_table(path, rng, unity=False, expr=False, nd=3, ns=4):
         cells = [repr(round(v, 4)) for v in vals]
         if expr and i == 1 and not unity:
             cells[4] = '1.0 + 10.0 / (dT + 100.0)'
+        if expr == 'repeat' and i == 2 and not unity:
+            cells[2] = cells[3] = cells[4] = '1.0 + 10.0 / (dT + 100.0)'
+            cells[0] = '1.0 + 2.0 / dT'
+            cells[1] = '1.0 + 2.0 / dT'
         rows.append(f'stat{i},Statistical,' + ','.join(cells))
     with open(path, 'w') as f:
         f.write('\n'.join(rows) + '\n')
+
+
+def stated_method(path, region, dT, T_in, IN, OUT):
+    """The semi-statistical horizontal method applied to the table as
+    written, independently of the solver's reader: every cell of a column
+    (number or expression in dT) is evaluated with the temperature rise that
+    column's factor multiplies; the Cladding column applies to both halves
+    of the cladding when the location lies beyond its mid-wall.
+    Returns (hot, zero-sigma cumulative, product of direct factors)."""
+    nt = dT.shape[1]
+    colof = [0, 1, 2][:nt] if nt <= 3 else [0, 1, 2, 2, 3, 4][:nt]
+    with open(path, encoding='utf-8-sig') as f:
+        lines = [ln for ln in f.read().splitlines()[1:] if ln.strip()]
+    direct, stat = [], []
+    for ln in lines:
+        cells = ln.split(',')
+        fac = np.ones(dT.shape)
+        for j in range(nt):
+            txt = cells[2 + colof[j]]
+            try:
+                fac[:, j] = float(txt)
+            except ValueError:
+                v = np.asarray(eval(txt, {'np': np, 'dT': dT[:, j]}),
+                               dtype=float) * np.ones(dT.shape[0])
+                v[v == np.inf] = 1.0
+                fac[:, j] = v
+        (direct if cells[1].lower() == 'direct' else stat).append(fac)
+    dprod = np.prod(np.array(direct), axis=0) if direct else np.ones(dT.shape)
+    zero = dT * dprod
+    czero = T_in + np.cumsum(zero, axis=1)
+    sos = np.zeros(dT.shape)
+    for g in stat:
+        sos += np.cumsum(zero * (g - 1.0), axis=1) ** 2
+    hot = czero + OUT * np.sqrt(sos) / IN
+    return hot, czero, dprod
 
 
 def pipeline(dassh, path, region, dT, T_in, IN, OUT):
@@ -79,7 +122,8 @@ def table_traces(args):
         tables = []
         for i in range(n):
             p = str(d / f't{i}.csv')
-            write_table(p, rng, unity=(i == 0), expr=(i % 3 == 2))
+            write_table(p, rng, unity=(i == 0),
+                        expr=('repeat' if i % 3 == 1 else i % 3 == 2))
             tables.append((f'gen{seed}-{i}', p, i == 0))
         if seed % 4 == 0:
             root = os.path.join(os.path.dirname(dassh.__file__), 'data')
@@ -106,7 +150,9 @@ def table_traces(args):
                                          OUT)[0][:, j]
                                 for j in range(nt)]).T
                             nom = T_in + np.cumsum(dT, axis=1)
-                            zero = T_in + np.cumsum(dT * direct, axis=1)
+                            want, zero, dtruth = stated_method(
+                                path, region, dT, T_in, IN, OUT)
+                            ge1 = ge1 and bool(np.all(dtruth >= 1.0))
                             for a in range(dT.shape[0]):
                                 ev.append({
                                     'e': 'Hot', 'asm': a, 'inn': IN, 'out': OUT,
@@ -115,6 +161,7 @@ def table_traces(args):
                                     'nom': [qt(v) for v in nom[a]],
                                     'zero': [qt(v) for v in zero[a]],
                                     'own': [qt(v) for v in own[a]],
+                                    'want': [qt(v) for v in want[a]],
                                     'tol': 2, 'ptol': 40})
                 except SystemExit:
                     continue   # table rejected with an error message
